@@ -130,7 +130,7 @@ def ruleName : RuleId → String
   | .missingBase => "missingBase" | .baseNotClass => "baseNotClass" | .danglingType => "danglingType"
   | .cycle => "cycle"
   | .redeclaredProperty => "redeclaredProperty" | .redeclaredMethod => "redeclaredMethod"
-  | .ctorMissingInherited => "ctorMissingInherited"
+  | .ctorMissingInherited => "ctorMissingInherited" | .inheritedClash => "inheritedClash"
   | .danglingDocClass => "danglingDocClass" | .danglingDocConst => "danglingDocConst"
   | .danglingDocAttr => "danglingDocAttr"
   | .ctorDefault => "ctorDefault" | .ctorPropInit => "ctorPropInit" | .ctorMissing => "ctorMissing"
